@@ -369,11 +369,22 @@ def run_app_shard(desc) -> Acc:
         if it % 2:
             n0 = len(store.log)
             try:
-                await ap.app._reset()
+                # the configuration written again after a reset on the same connection: through the application's own
+                # helper where it has one under this name, else by the same steps on the EZSP object
+                helper = getattr(ap.app, "_reset", None)
+                if helper is not None:
+                    await helper()
+                else:
+                    import bellows.ezsp as ezsp_mod_
+
+                    ez = next(v for v in vars(ap.app).values() if isinstance(v, ezsp_mod_.EZSP))
+                    ez.stop_ezsp()
+                    await ez.startup_reset()
+                    await ez.write_config(ap.app.config[bconf.CONF_EZSP_CONFIG])
                 logs.append(store.log[n0:])
                 acc.hit("written_again_by_application_reset")
             except BaseException as ex:  # noqa: BLE001
-                acc.violation("C16/call/raised", f"application _reset() raised {ex!r}", case)
+                acc.violation("C16/call/raised", f"reset + configuration write on the same connection raised {ex!r}", case)
         for log in logs:
             sets = [(cname(i), v) for (k, i, v, ok) in log if k == "cfg"]
             names = [n for n, _ in sets]
